@@ -135,7 +135,10 @@ def aniso_meshes(seed, n):
             v, t = gen.cylinder(int(rng.integers(6, 10)), int(rng.integers(3, 6)))
         v = v @ gen.random_rotation(rng).T
         aniso = float(rng.uniform(0.5, 6.0)) if k % 2 else (float(rng.uniform(0.5, 6.0)), float(rng.uniform(0.0, 6.0)))
-        out.append(dict(v=np.asarray(v, float), t=np.asarray(t, np.int64), aniso=aniso, smooth=int(rng.integers(0, 4)), name=["ellipsoid", "torus", "cylinder"][kind]))
+        nm = ["ellipsoid", "torus", "cylinder"][kind]
+        if (k // 3) % 2 == 1 or (n <= 6 and k >= 3):          # the same surface wound the other way: every principal curvature changes sign
+            t = np.asarray(t)[:, [0, 2, 1]]; nm += "-reversed"
+        out.append(dict(v=np.asarray(v, float), t=np.asarray(t, np.int64), aniso=aniso, smooth=int(rng.integers(0, 4)), name=nm))
     for h in (1e-6, 1e-7, 1e-8, 10.0 ** rng.uniform(-8, -5)):          # flat (sliver) triangles: one vertex almost on the opposite edge
         v, t = gen.sliver(rng, h)
         out.append(dict(v=v, t=t, aniso=0.0 if h in (1e-6, 1e-8) else (0.0, 3.0), smooth=int(rng.integers(0, 3)), name="sliver"))
@@ -149,6 +152,8 @@ def run_stream(drv, stats, seed, n_tri, n_tet, size, failures, name="fem corresp
             dt = dtypes[k % len(dtypes)]
             it = "i64" if k % 3 else "i32"
             k += 1
+            if any(str(x).startswith(("far-offset", "unit:")) for x in c["tags"]):
+                dt = "f64"
             sc = SCALES[(k // 2) % len(SCALES)] if dt == "f64" else 1.0        # small / large meshes: the guards are absolute
             c = dict(c, v=c["v"] * sc, tags=set(c["tags"]) | ({"scale:%g" % sc} if sc != 1.0 else set()))
             err = compare_fem(drv, "tri", c["v"], c["t"], lump, dt, it, pres=c.get("pres"))
@@ -160,7 +165,7 @@ def run_stream(drv, stats, seed, n_tri, n_tet, size, failures, name="fem corresp
                                              case_dict("tri", c["v"], c["t"], lump=lump, dt=dt, name=c["name"], pres=c.get("pres"))))
                 if len(failures) > 5:
                     return
-    for c in gen.big_cases(seed, thorough=(size != "small")):
+    for c in gen.big_cases(seed, thorough=(size != "small"), huge=True):
         for lump in (False, True):
             err = compare_fem(drv, "tri", c["v"], c["t"], lump, "f64", "i64")
             stats.case(core.mesh_key(c["v"], c["t"], lump, "big"), cls=["tri:" + c["name"], "lump:%s" % lump])
@@ -178,7 +183,7 @@ def run_stream(drv, stats, seed, n_tri, n_tet, size, failures, name="fem corresp
                     failures.append(core.Failure("correspondence", name, "tri sliver h=%.3g lump=%s: %s" % (h, lump, err), case_dict("tri", v, tt, lump=lump, dt="f64", name="sliver")))
     for c in gen.tet_stream(seed, n_tet, size):
         for lump in (False, True):
-            dt = dtypes[k % len(dtypes)]
+            dt = dtypes[k % len(dtypes)] if c["name"] != "multi-scale" else "f64"        # single precision cannot hold coordinates 1 and 2e-5 side by side
             it = "i64" if k % 3 else "i32"
             k += 1
             err = compare_fem(drv, "tet", c["v"], c["t"], lump, dt, it)
